@@ -249,12 +249,15 @@ class Engine:
                 os.mkdir(dec); os.chmod(dec, 0o755)
             else:
                 open(dec, "w").write("#!/bin/sh\necho not the program\n")
-                os.chmod(dec, 0o644)
+                # file700: executable, but only by its owner - exec run by anybody else passes over it just the same
+                os.chmod(dec, 0o700 if lk["kind"] == "file700" else 0o644)
             os.chown(dec, lk["owner"], lk["owner"])
             elem = {"": "", ".": ".", "rel": "sub", "abs": look}[lk["elem"]]
             env["PATH"] = elem + ":" + os.path.dirname(exe) + ":/usr/bin:/bin"
             cwd = look
-            cmd = [case["prog"]] + fa + list(args)
+            # through env(1): its execvp passes over what it may not execute and goes on along PATH, as a shell does
+            # (setpriv's own exec falls back to /bin/sh on such a file)
+            cmd = ["env", case["prog"]] + fa + list(args)
         if who in ("nobody", "suid"):
             cmd = ["setpriv", "--reuid=%d" % NOBODY, "--regid=%d" % NOBODY, "--clear-groups"] + cmd
         open(mark, "w").close()
